@@ -32,6 +32,90 @@ CLAIMS = {
              'concurrent with other calls; user key/value operations do not touch the container.',
         technique='lockset / access-conflict analysis over all AST paths with helpers inlined',
         design='6.C07'),
+    'C01': dict(
+        level='other',
+        text='Key<->slot binding discipline on every path of every entry point of all ten containers: R-LOOKUP-PROV (index consulted with '
+             'the call\'s own key / range element; a hit yields exactly the value field of the slot the index names for that key; a miss '
+             'yields nothing), R-BIND-COHERENT (the index entry for the key names the claimed slot, the value goes into that slot, every '
+             'back-pointer is written once with the matching producer; updates write the found slot), R-KIND (no raw random number, stale or '
+             'caller value used as a slot), R-PERM-BACKPTR (rr), R-PARTITION-INTEGRITY (list-position domain: no bound slot left on the free '
+             'side, none bound twice), R-NO-REHASH. Structural necessary conditions; the induction to "latest value returned" is on paper.',
+        note='Assumes RI at entry; trusted: clang AST, stdmodel.py, model.py.',
+        technique='value-provenance and index-kind (dimension) analysis + list-position abstract domain over enumerated AST paths', design='6.C01'),
+    'C08': dict(
+        level='other',
+        text='R-ITER-TS (iterator typestate: no use after the erase that invalidated it, nor of an iterator obtained before a loop that erases '
+             'from that container), R-FREE-SLOT (stored iterators read only from slots known bound), R-CLAIM-DOMINATED (position domain: '
+             'partition advanced only when a free node is known to exist), R-NONEMPTY-DEREF, R-NO-REHASH, R-KIND, R-PERM-BACKPTR, R-RAII-ONLY '
+             '(no manual memory management, so destruction is exactly-once by the std containers once UB is excluded), L5 (no re-lock). '
+             'Structural clauses; UB inside user types and overflow of now+ttl are outside the property.',
+        note='Assumes RI at entry; std-library invalidation rules of stdmodel.py.',
+        technique='iterator typestate + ownership (free-slot) + list-position abstract domain over enumerated AST paths; AST ban-list', design='6.C08'),
+    'C10': dict(
+        level='other',
+        text='List-position postconditions on every path of insert/find/erase (single and range) of lru, tlru, utlru: a use ends with the entry '
+             'at the FRONT, peek/miss/rejected paths move nothing, a new entry ends at the FRONT, a removed node ends FIRST_FREE, the policy '
+             'victim is back() under size>=capacity (= last used node), nothing else moves, partition integrity; tlru/utlru also keyed '
+             're-filing so the head-expired test reads true deadlines. Paper step: move-to-front + remove-one keeps the used region ordered '
+             'by last use.',
+        note='[list.ops] splice semantics as modelled in pos.py; RI at entry.',
+        technique='list-position abstract domain (symbolic sequence with partition marker) over enumerated AST paths', design='6.C10'),
+    'C11': dict(
+        level='other',
+        text='R-COUNT-ALG on every path of lfu/lfuda: new entry filed with count 1; a use reads the entry\'s own stored count c, erases that '
+             'count entry, files c+1 for the same node and stores the new position (in that order); peek/miss/rejected paths leave counts '
+             'alone; removal deletes the count entry. R-VICTIM-MIN: victim is begin() of a multimap<size_t,...> with default order. '
+             'R-COUNT-REPORT: find_with_use_count returns the count after the access (stored count when peeking).',
+        note='[associative.reqmts] begin() minimal; RI at entry.',
+        technique='symbolic term algebra with store forwarding over enumerated AST paths', design='6.C11'),
+    'C12': dict(
+        level='other',
+        text='fifo node positions on every path: insert takes the head node to the BACK (evicting the key it holds iff it holds one), update '
+             'and lookups move nothing, erase parks the freed node at the FRONT unbound, so unbound nodes form the prefix inserts recycle and '
+             'bound nodes stay in insertion order; single-node splice forms only.',
+        note='[list.ops]; RI at entry (unbound nodes form a prefix).',
+        technique='list-position abstract domain over enumerated AST paths', design='6.C10'),
+    'C13': dict(
+        level='other',
+        text='mru list positions on every path: a use ends with the entry at LAST_USED (just before the partition), a new entry is claimed at '
+             'the partition and so ends LAST_USED, the victim is back() under size>=capacity (= most recently used), removed nodes end '
+             'FIRST_FREE, nothing else moves; rejected/peek/miss paths move nothing.',
+        note='[list.ops]; RI at entry.',
+        technique='list-position abstract domain over enumerated AST paths', design='6.C10'),
+    'C14': dict(
+        level='other',
+        text='lfuda: C11 count algebra; R-STAMP (every use/insert stamps the entry with the call\'s clock sample, nothing else does); a '
+             'stamped entry ends at the young end (LAST_USED) so the age list stays stamp-ordered; R-AGE-LOOP (scan from the old end while the '
+             'scan node is used and age+tick<now strictly; aged entry re-filed once under (size_t)(count*ratio), re-stamped, spliced before '
+             'the previously aged node, scan restarts; loop stops only at the partition or a young entry); R-AGE-TALLY; R-AGE-BEFORE-VICTIM. '
+             'Declined: float rounding of count*ratio above 2^24.',
+        note='steady_clock monotone; RI at entry.',
+        technique='loop-shape analysis + list-position domain + linear normal form of time comparisons', design='6.C14'),
+    'C15': dict(
+        level='other',
+        text='rr: member mt19937 seeded from random_device; on every evicting insert path exactly one draw from '
+             'uniform_int_distribution<size_t>{0,size-1} on that engine under size>=capacity>=1, the drawn open-list position is mapped through '
+             'the open list to the victim slot (index-kind check), one removal before the bind, so the victim is a prior resident and never a '
+             'free slot or the new key; every open-list write refreshes the moved element\'s stored position. The statistical spread is '
+             'libstdc++\'s and is not decided.',
+        note='Trusted: libstdc++ uniform_int_distribution/mt19937.',
+        technique='value-provenance + index-kind (dimension) analysis over enumerated AST paths', design='6.C15'),
+    'C18': dict(
+        level='other',
+        text='Sibling agreement: for every range method the set of canonical path summaries (valuation, abstract effects, reported result; '
+             'subject key/value/ttl abstracted) of its loop body equals that of the single-key sibling; results delivered once per element '
+             'with the element\'s own key, tallies step exactly on successes, no early exit; one clock sample outside the loop; same purge '
+             'prefix; fifo overloads forward begin/end of the same range. Atomicity of the whole loop is C06.',
+        note='ut_map/ut_set insert_range purges once: equal to per-call purging when uniform_ttl>0 (O1). RI as loop invariant.',
+        technique='sibling cross-check of canonicalised path summaries', design='6.C18'),
+    'C20': dict(
+        level='other',
+        text='R-RESET-COMPLETE for utlru_cache::clear and ut_map::clear: every abstract state component with a non-constructor writer '
+             '(counter, partition, index, each auxiliary structure, slot-list order) is re-established on the non-empty path; a slot-list '
+             're-numbering must cover the whole list; the configured TTL is kept; a mutable field without a reset rule is reported; the '
+             'empty path changes nothing. Element fields of freed slots are covered by C08\'s free-slot rule.',
+        note='Slots are interchangeable (behaviour does not depend on which free slot is claimed); RI at entry.',
+        technique='who-writes inventory vs. reset-effect completeness over AST paths', design='6.C20'),
     'C02': dict(
         level='other',
         text='Necessary-condition conformance, decided on every path and loop iteration of every entry point of all ten containers: '
